@@ -270,6 +270,12 @@ class _Api:
         r._peers = {}
         r._ips = []
         r.listener = None
+        # what Reactor.__init__ sets and the status / ping commands read (no listener, signal handling or daemon object here)
+        import time as _t
+        import uuid as _u
+
+        r.daemon_uuid, r.daemon_start_time, r.active_clients = str(_u.uuid4()), _t.time(), {}
+        r._dynamic_peers, r.exit_code, r._stopping = set(), Reactor.Exit.unknown, False
         if not r.reload():
             raise RuntimeError(f'harness configuration refused: {r.configuration.error}')
         pr = Processes()
@@ -560,3 +566,115 @@ def command_bursts_v4(tier, seed):
 def _replay_bursts_v4(f):
     idx = tuple([c for c, _e, _x in COMMANDS_V4].index(c) for c in f['input']['commands'])
     return _run(burst_case_v4(idx, f['input']['lines_per_read'])) is None
+
+
+# ---------------------------------------------------------------------------------------------------------------------
+# every command the dispatcher of the tree registers (read from its dispatch tree, not a list of mine), each followed by a
+# fixed list of arguments, then a sentinel command: exactly one terminal reply per command, in order, whatever the command
+# and its arguments are; a command answered `error` has changed no Adj-RIB-Out
+ARGS = ['', 'x', '-1', '*', '127.0.0.1', '127.0.0.9', 'in', 'out', 'extensive', 'json', 'summary', 'configuration', 'ipv4 unicast', 'adj-rib out', 'adj-rib in', '[', '{ }', '"', '\\', '%s', '99999999999999999999999', 'route', 'route 10.9.0.0/24', 'route 10.9.0.0/24 next-hop 192.0.2.1', 'eor', 'eor ipv4 unicast', 'route-refresh ipv4 unicast', 'watchdog w', 'operational asm afi ipv4 safi unicast advisory "x"', 'flow route { match { destination 10.0.0.0/24; } then { discard; } }', 'vpls rd 1:1 endpoint 1 base 100 offset 1 size 8 next-hop 192.0.2.1', 'attributes next-hop 192.0.2.1 nlri 10.9.1.0/24', 'ipv4 unicast 10.9.2.0/24 next-hop 192.0.2.1', 'ipv6 unicast 2001:db8::/32 next-hop 2001:db8::1']
+# commands which end or restart the daemon, or change how (whether) commands are acknowledged: one reply per command is not
+# what they promise
+NOT_DRIVEN = {'daemon shutdown', 'daemon reload', 'daemon restart', 'system crash', 'session ack disable', 'session ack silence', 'session bye', 'session reset', 'session sync enable'}
+SENTINEL = 'bogus sentinel command'
+
+
+import contextlib
+
+
+@contextlib.contextmanager
+def _quiet():
+    """the handlers print the traceback of what they refuse (peer create with a bad address ...): not part of the verdict"""
+    import io
+    import sys
+
+    saved = sys.stderr, sys.stdout
+    sys.stderr = sys.stdout = io.StringIO()
+    try:
+        yield
+    finally:
+        sys.stderr, sys.stdout = saved
+
+
+def registered_commands():
+    from exabgp.reactor.api.dispatch.v6 import _get_v6_tree
+
+    def walk(t, pre=()):
+        for k, v in t.items():
+            k = '*' if str(k) == '__selector__' else str(k)
+            if isinstance(v, dict):
+                yield from walk(v, pre + (k,))
+            else:
+                yield ' '.join(pre + (k,))
+
+    return sorted(set(walk(_get_v6_tree())))
+
+
+async def registered_case(line):
+    w = _Api()
+    inp = {'commands': [line, SENTINEL]}
+    try:
+        try:
+            w.deliver((line + '\n' + SENTINEL + '\n').encode())
+            for _ in range(60):
+                await w.iterate()
+                if w.idle():
+                    break
+        except Exception as e:  # noqa
+            return {'what': f'an exception left the command-processing statements of the main loop: {type(e).__name__}: {str(e)[:160]}', 'input': inp}
+        got = [t for t in (terminal(l) for l in w.replies()) if t]
+        if len(got) != 2:
+            return {'what': f'{len(got)} terminal replies for 2 commands: {got}', 'input': inp}
+        if got[1] != 'error':
+            return {'what': f'the unknown command after it was answered {got[1]}', 'input': inp}
+        if got[0] == 'error':
+            changed = {nb: sorted(v) for nb, v in w.ribs().items() if v}
+            if changed:
+                return {'what': f'a command answered error changed an Adj-RIB-Out: {changed}', 'input': inp}
+        return None
+    finally:
+        w.close()
+
+
+@bounded('C14', 'every-registered-command')
+def every_registered_command(tier, seed):
+    cmds = [c for c in registered_commands() if c not in NOT_DRIVEN and c != '#']
+    args = ARGS if tier == 'thorough' else ARGS[::2]
+    fails, evals = [], 0
+    for c in cmds:
+        for a in args:
+            line = f'{c} {a}'.strip()
+            evals += 1
+            try:
+                with _quiet():
+                    f = _run(registered_case(line))
+            except Exception as e:  # noqa
+                f = {'what': f'the harness itself failed: {type(e).__name__}: {str(e)[:160]}', 'input': {'commands': [line, SENTINEL]}}
+            if f:
+                fails.append(f)
+    return {'evaluations': evals, 'distinct_nontrivial': evals, 'bound': f'{len(cmds)} of the {len(registered_commands())} commands in the v6 dispatch tree of the tree (not driven: {sorted(NOT_DRIVEN)} -- they end the daemon or change acknowledgement itself) x {len(args)} argument strings, each followed by an unknown command in the same read; two neighbors; a partially constructed Reactor (no listener, no signal handling)', 'rule': 'one case = one command line', 'samples': [{'commands': [cmds[0], SENTINEL]}], 'failures': fails}
+
+
+@replayer('C14', 'every-registered-command')
+def _replay_registered(f):
+    return _run(registered_case(f['input']['commands'][0])) is None
+
+
+@harness_canary('C14', 'an unknown command is dropped without a reply')
+def _hc_dropped():
+    from exabgp.reactor.api import API
+
+    real = API.process
+    line = 'system version'
+
+    def silent(self, reactor, service, command):
+        if command.strip() == SENTINEL:
+            return True
+        return real(self, reactor, service, command)
+
+    ok = _run(registered_case(line)) is None
+    API.process = silent
+    try:
+        return ok and _run(registered_case(line)) is not None
+    finally:
+        API.process = real
